@@ -147,16 +147,35 @@ def run_sequence(cs, ctx):
     ctx.cov('K_%d' % min(K, 10))
     ctx.cnt('solves_in_clean_runs', K)
     singles, pairs = schedules_for(K, ctx.tier, rng)
-    for limit, faults in singles + pairs:
+    # the documented write=True argument of solve(): once in a directory where model.lp can be written and once
+    # where it cannot (a directory of that name is in the way)
+    okdir = os.path.join(ctx.workdir, 'cwd_ok')
+    baddir = os.path.join(ctx.workdir, 'cwd_blocked')
+    os.makedirs(okdir, exist_ok=True)
+    os.makedirs(os.path.join(baddir, 'model.lp'), exist_ok=True)
+    extra = []
+    for k in range(K):
+        for kind in ('Incumbent', 'Infeasible', 'Not Solved'):
+            for d in (okdir, baddir):
+                extra.append((LIMIT, [{'at': k, 'kind': kind, 'persistent': False, 'values': 'zeros', 'tfrac': 0.9}], d))
+    for item in [(a, b, None) for a, b in singles + pairs] + extra:
+        limit, faults, wdir = item
         fl = [dict(f, _rng=random.Random(cs ^ f['at'])) for f in faults]
         ex = en.run_lp(spec, opts, ctx.workdir, rng, inject=False, text=text, argv=argv, time_limit=limit, faults=fl,
-                       clock=VirtualClock(), getters=('short', 'long'))
+                       clock=VirtualClock(), getters=('short', 'long'),
+                       solve_kwargs={'write': True} if wdir else None, cwd=wdir)
+        if wdir:
+            ctx.cnt('schedules_with_write_true')
+            if ex['exc'] is not None and ex['exc'].get('is_oserror'):
+                # model.lp could not be written and solve() raised: no results exist, no property speaks about it
+                ctx.cnt('unobservable_model_lp_not_writable')
+                continue
         ctx.cnt('schedules_executed')
         if any(e.get('backend_fault') for e in ex['events']):
             ctx.cnt('excluded_backend_returned_infeasible_point')
             continue
         probs, info = judge(ex, limit)
-        desc = {'limit': limit, 'faults': faults, 'K': K}
+        desc = {'limit': limit, 'faults': faults, 'K': K, 'write_true_in': None if not wdir else os.path.basename(wdir)}
         key = sp.shash([text, argv[2:], desc])
         if info['applied']:
             ctx.cnt('schedules_that_diverted_the_run')
